@@ -321,7 +321,7 @@ fn c15_acknowledge() {
 //@ bounds=message id: all u16; token 0..8 symbolic bytes; sequence: every u32; payload 0..2 symbolic bytes; both types
 //@ what=notification carries the given token, message id, type (CON/NON), 2.05, payload, version 1, and exactly one Observe value = shortest big-endian form of the sequence
 #[kani::proof]
-#[kani::unwind(10)]
+#[kani::unwind(6)]
 #[kani::stub(core::fmt::write, crate::verif_harness::stub_write)]
 fn c15_notification() {
     let id: u16 = kani::any();
